@@ -76,6 +76,13 @@ class CHECK(Check):
                     out.append(('seq', pre, 'none', ()))
                     if fam is self.fam:
                         reps.setdefault(('trunc', a), pre)
+        # truncations with one more level of left context (every k=2 between-token configuration): end-of-query messages
+        if self.fam2 is None:
+            ex2 = m.explore(2)
+            self.k2_states = len(ex2['states'])
+            for a, (pre, stk) in ex2['states'].items():
+                if pre and all(x in m.lexeme for x in pre) and not m.simulate(pre)[0]:
+                    out.append(('seq', pre, 'none', ()))
         # lexeme-rewritten tokens as the offending / preceding token
         for a, (pre, stk) in self.fam.ex['states'].items():
             for alt in ("'it''s'", '"a\\"b"', '@v', "@'a b'", '@@sv', "''"):
@@ -309,7 +316,7 @@ class CHECK(Check):
         return {'exhaustive': True, 'states': sum(len(f.ex['states']) for f in fams), 'transitions': sum(f.ex['edges'] for f in fams),
                 'traces_validated_against_impl': agg['n'], 'error_cells_reported_on': len(agg['cover'].get('error_cells', ())),
                 'separators': list(SEPS), 'leads': list(LEAD),
-                'rule': 'every rejected insert/replace deviation with every terminal at every abstract state + truncations (default layout); one '
+                'rule': 'every rejected insert/replace deviation with every terminal at every abstract state + truncations at every k=1 and k=2 configuration (default layout); one '
                         'representative per state x every single separator deviation at every position x leads (thorough: pairs); illegal characters '
                         'at every position of 200 representatives and after every token that can span a line break; errors at the end of pumped lists (3, 40, 2500 elements); distinct_nontrivial = distinct (header, caret line, suggestions)'}
 
